@@ -36,3 +36,55 @@ CHECKS['C13'] = dict(
                  'at:notcontained', 'at:contained', 'ivl:contained', 'ivl:notcontained', 'rel:contained', 'rel:notcontained']),
     assumptions=[A_SHAPE, 'index values between the probed regions behave like their neighbours'],
 )
+
+
+def std_units(src, modes=('exact', 'chk'), shards=NCPU):
+    return lambda tier: [unit(m, src, m, shards=shards) for m in modes]
+
+
+CHECKS['C02'] = dict(
+    title='Evaluation returns the value of the stored piecewise polynomial',
+    level='exploration',
+    technique='bounded-exhaustive enumeration of (grid, window, order, coefficient pattern, abscissa) on the real evaluation code with an exact rational scalar against explicit-power evaluation',
+    level_text='Every window of 4 grid families up to 5 (thorough 7) points, orders 0..3 (0..4), unit/zero/generic coefficient vectors and a probe set containing every grid point, interior points of every grid interval, points just outside and far outside; exact equality with the midpoint polynomial computed independently. Exhaustive within those bounds.',
+    level_note='Trusted: GMP, the 20-line explicit-power oracle in checks/c02_eval.cpp. x outside the probe set is covered by the degree argument (more than order+1 probes per interval) and by probing both sides of every comparison threshold; NaN abscissae are outside the statement.',
+    units=std_units('checks/c02_eval.cpp'),
+    rule='cases = (grid family, n, window, order, coefficient pattern); each evaluates the spline at every probe point (counter point_evaluations). Non-trivial = coefficient vector non-zero.',
+    bounds=dict(quick='4 grid families x n=2..5 x all windows x orders 0..3 x (all unit vectors, zero, 2 generic)',
+                thorough='n=2..7, orders 0..4'),
+    guards=dict(classes=['x:interior', 'x:shared-gridpoint', 'x:front', 'x:back', 'x:left-outside', 'x:right-outside', 'x:interval-free',
+                         'win:interval:sub', 'win:interval:whole', 'win:point:sub', 'win:empty:sub'],
+                counters=['point_evaluations']),
+    assumptions=[A_SHAPE, A_POLY],
+)
+
+CHECKS['C15'] = dict(
+    title='Predicates tell the truth',
+    level='exploration',
+    technique='bounded-exhaustive enumeration of splines and spline pairs on the real predicates against reference predicates on the exact reference model',
+    level_text='isZero on every (window, order, coefficient pattern incl. zero on some/all intervals); checkOverlap on every ordered window pair x order pair on a shared grid and on equal distinct grid objects; ==/!= on every window pair x coefficient-pattern pair on the same grid, an equal copy and a grid with one point moved. Exact, exhaustive within the bounds.',
+    level_note='Trusted: GMP, engine/refpp.h (two independent formulations of each expected value are cross-checked in every case). Reflexivity is claimed for finite coefficients only (NaN != NaN).',
+    units=std_units('checks/c15_predicates.cpp'),
+    rule='cases = isZero(grid, window, order, pattern) | overlap(grid variant, order pair, window pair) | eq(grid variant, order, window pair, pattern pair). Non-trivial = operands have intervals (isZero: spline non-zero).',
+    bounds=dict(quick='grids n=2..5 (2 families), orders 0..2', thorough='n=2..6, orders 0..3'),
+    guards=dict(classes=['isZero:true:zero-coefficients', 'isZero:true:interval-free', 'isZero:false',
+                         'overlap:false:intervalxinterval:meets', 'overlap:false:intervalxinterval:before', 'overlap:true:intervalxinterval:overlaps',
+                         'overlap:true:intervalxinterval:during', 'overlap:true:intervalxinterval:equal', 'overlap:false:pointxinterval:during',
+                         'eq:true:same:samewin', 'eq:true:copy:samewin', 'eq:false:moved:samewin', 'eq:false:same:samewin', 'eq:false:same:otherwin']),
+    assumptions=[A_SHAPE],
+)
+
+CHECKS['C11'] = dict(
+    title='Malformed input is rejected at the boundary with the library exception',
+    level='exploration',
+    technique='bounded-exhaustive enumeration of argument values of every validating entry point on the real code; accepted <=> valid by an independently written rule; refusals caught by exact exception type',
+    level_text='Every sequence up to length 4 (thorough 5) over {-inf,-1,-0.0,0.0,1,2,+inf,NaN} through all four Grid constructors (plus null pointer), every index pair incl. size_t extremes for Support, every coefficient count for Spline, every knot sequence up to length 5 over {0,1,2,NaN} x {no grid, matching, extra point, moved point} x orders 0..5 for the generator, every count pair for linearCombination, every size pair and every boundary array (node, derivative 0..order+2 at every position, orders 1..4) for interpolate with a bounds-checked stub solver.',
+    level_note='Trusted: the validity rules written in checks/c11_validation.cpp from the property statement. Sequences longer than the bound are covered by A-shape only (the scans compare neighbours). Support(grid,k,k), k>0 may be accepted (as empty) or refused (DESIGN.md 5).',
+    units=std_units('checks/c11_validation.cpp'),
+    rule='cases = one argument tuple of one validating entry point. Non-trivial = the input is valid (the accepted side); invalid inputs are the other side of the equivalence and are all executed too.',
+    bounds=dict(quick='grid sequences len<=4 (double) / <=5 (rational); generator knots len<=5; supports on n=2..4; interpolation orders 1..4',
+                thorough='grid sequences len<=5 (double); generator knots len<=6 (double) / <=7 (rational)'),
+    guards=dict(classes=[x + y for x in ['Grid', 'Support', 'Spline', 'Generator', 'generateBSplines', 'linearCombination', 'interpolate:sizes', 'interpolate:boundaries']
+                         for y in [':valid', ':invalid']] + ['Support:either']),
+    assumptions=[A_SHAPE],
+)
